@@ -169,11 +169,11 @@ ALPHA_Q = "{91, 93, 123, 125, 34, 92, 32, 44, 58, 49, 48, 45, 46, 101, 97, 95}"
 ALPHA_T = "{91, 93, 123, 125, 34, 92, 32, 44, 58, 49, 48, 45, 43, 46, 101, 97, 95, 10, 233}"
 
 
-def gen_cfg(ctx: Ctx, mode: str, invs, pieces=None, alpha=None) -> str:
+def gen_cfg(ctx: Ctx, mode: str, invs, pieces=None, alpha=None, few=False) -> str:
     return ("SPECIFICATION Spec\nCONSTANTS\n"
             f" Mode = \"{mode}\"\n"
             f" Alpha = {alpha or ALPHA_Q}\n"
-            f" MaxPieces = {pieces or 3}\n"
+            f" MaxPieces = {pieces or 3}\n FewWords = {'TRUE' if few else 'FALSE'}\n"
             + "".join(f"INVARIANT {i}\n" for i in invs) + "CHECK_DEADLOCK FALSE\n")
 
 
@@ -330,8 +330,6 @@ def run(ctx: Ctx) -> None:
                "float repr is taken from Python (oracle), not modelled")
     tally = Tally()
     _reported.clear()
-    pieces = ctx.pick(3, 4)
-    alpha = ctx.pick(ALPHA_Q, ALPHA_T)
 
     # ---- 1. model-level control: the as-built model violates the strict law ---------------------
     r = expect_violation(run_tlc("seq/TagValue_Gen.tla", gen_cfg(ctx, "strings", ("LawStrictAsBuilt",), 2),
@@ -343,17 +341,21 @@ def run(ctx: Ctx) -> None:
     # ---- 2. contract holds everywhere, as-built model fails exactly through the named deviations;
     #         every case is emitted with the as-built expectation ---------------------------------
     all_cases = []
-    for mode in ("strings", "values"):
-        r = expect_clean(run_tlc("seq/TagValue_Gen.tla", gen_cfg(ctx, mode, LAWS + ("Emit",), pieces, alpha),
-                                 ctx.scratch, workers=4, deadlock=False, timeout=2400, heap="8g"),
-                         f"TagValue.tla laws ({mode})")
+    # quick: texts of <= 3 pieces over 16 characters + 8 words.  thorough: <= 3 pieces over the wider
+    # alphabet (+ sign, newline, a non-ASCII letter), then <= 4 pieces over 16 characters + 4 words
+    runs = [("strings", 3, ALPHA_Q, False), ("values", 3, ALPHA_Q, False)] if ctx.quick else \
+           [("strings", 3, ALPHA_T, False), ("values", 3, ALPHA_Q, False), ("strings", 4, ALPHA_Q, True)]
+    for mode, pieces, alpha, few in runs:
+        r = expect_clean(run_tlc("seq/TagValue_Gen.tla", gen_cfg(ctx, mode, LAWS + ("Emit",), pieces, alpha, few),
+                                 ctx.scratch, workers=4 if pieces < 4 else "auto", deadlock=False, timeout=2400, heap="12g"),
+                         f"TagValue.tla laws ({mode}, {pieces} pieces)")
         ctx.add_tlc(r)
         cases = r.recs("CASE")
         ctx.require(len(cases) > 300, f"emitted only {len(cases)} cases ({mode})")
-        ctx.note(f"universe_{mode}", len(cases))
+        ctx.note(f"universe_{mode}_{pieces}", len(cases))
         all_cases += cases
         for c in cases:
-            check_case(ctx, c, tally, f"tlc-universe-{mode}")
+            check_case(ctx, c, tally, f"tlc-universe-{mode}-{pieces}")
     ex = next(c for c in all_cases if c["dev"] == 0 and c["x"]["k"] == "str" and len(c["x"]["v"]) >= 3 and c["fmt"][0] == 34)
     ctx.sample({"source": "tlc-universe", "value": repr(to_py(ex["x"])), "spec_format": text_of(ex["fmt"]),
                 "spec_parse_of_raw_text": json.dumps(ex["p"], separators=(",", ":"))})
